@@ -127,10 +127,9 @@ def check_cfg(ctx, facts, cfg):
         check_instance(ctx, facts, S, key, fn, inst, scope, cfg)
     defs = {f.path for f in scope.values()}
     ctx.floor('C07.scope', 37, len(defs), 'in-scope function definitions (cfg %s)' % cfg, cfg=cfg)
-    required = [
-        'rate::decoder_work::DecoderWork::add_original_shard', 'rate::decoder_work::DecoderWork::add_recovery_shard',
-        'rate::decoder_work::DecoderWork::decode_begin', 'rate::encoder_work::EncoderWork::add_original_shard',
-        'rate::encoder_work::EncoderWork::encode_begin',
+    from . import roles as roles_mod
+    RL = roles_mod.roles(facts)
+    required = [RL.fn.get(r) for r in ('dec.add_original', 'dec.add_recovery', 'dec.begin', 'enc.add_original', 'enc.begin') if RL.fn.get(r)] + [
         '<rate::rate_default::DefaultRateEncoder<E> as rate::RateEncoder<E>>::reset',
         '<rate::rate_default::DefaultRateDecoder<E> as rate::RateDecoder<E>>::reset',
         'reed_solomon::ReedSolomonEncoder::reset', 'reed_solomon::ReedSolomonDecoder::reset',
